@@ -438,6 +438,85 @@ impl<T: Elem + SatisfyTraits<Tr>, M: MX, Tr: TrX + ?Sized> World<T, M, Tr> {
         }
     }
 
+    /// replace "clone of p" placeholders in the models by the real ids (only where the snapshot agrees with the model)
+    pub fn pin_models(&mut self) {
+        if T::SIZE == 0 { return; }
+        let sa = snap::<T, Tr, M>(&self.a);
+        if snap_matches::<T>(&sa, &self.ma) { for (m, s) in self.ma.iter_mut().zip(&sa) { *m = Mv::Id(s.0); } }
+        if let Some(b) = &self.b { let sb = snap::<T, Tr, M::Aux>(b); if snap_matches::<T>(&sb, &self.mb) { for (m, s) in self.mb.iter_mut().zip(&sb) { *m = Mv::Id(s.0); } } }
+    }
+
+    /// run one edge on this world (model updated alongside)
+    pub fn apply(&mut self, e: &Edge, out: &mut Out) {
+        if !matches!(e, Edge::History { .. }) && self.ma.iter().chain(self.mb.iter()).any(|m| matches!(m, Mv::CloneOf(_))) { self.pin_models(); }
+        match *e {
+            Edge::History { a, b, c, d } => {
+                // a real history on ONE vector: no reconstruction between the steps (unmerged cross-check, DESIGN.md 3.4 item 3)
+                for (k, code) in [a, b, c, d].into_iter().enumerate() {
+                    if code == u8::MAX { continue; }
+                    let step = crate::edges::history_alphabet(Tr::CLONEABLE, M::RESIZABLE)[code as usize];
+                    let before = out.fails.len();
+                    let need_b = edge_needs_b(&step);
+                    if need_b && self.b.is_none() { continue; }
+                    self.apply(&step, out);
+                    self.mid_history_check(out);
+                    for f in out.fails[before..].iter_mut() { f.detail = format!("history step {k} ({step:?}): {}", f.detail); }
+                    if out.faulted || out.fails.len() > before { break; }
+                }
+            }
+            Edge::Push(api, src) => self.do_push_insert(api, src, None, out),
+            Edge::Insert(api, i, src) => self.do_push_insert(api, src, Some(ix(i)), out),
+            Edge::Pop(api, sink) => self.do_remove_like(api, 0, 0, sink, out),
+            Edge::Remove(api, i, sink) => self.do_remove_like(api, 1, ix(i), sink, out),
+            Edge::SwapRemove(api, i, sink) => self.do_remove_like(api, 2, ix(i), sink, out),
+            Edge::Clear(api) => self.do_clear(api, out),
+            Edge::Get(api, k, i) => self.do_get(api, k, ix(i), out),
+            Edge::IterAll(api, k) => self.do_iter_all(api, k, out),
+            Edge::Drain { api, a, b, form, pat, sink } => self.do_drain(api, ix(a), ix(b), form, pat, sink, out),
+            Edge::Splice { api, a, b, form, pat, sink, rn, rsrc, lie } => self.do_splice(api, ix(a), ix(b), form, pat, sink, rn as usize, rsrc, lie, out),
+            Edge::DrainOverflow(api, o) => self.do_range_overflow(api, o, false, out),
+            Edge::SpliceOverflow(api, o) => self.do_range_overflow(api, o, true, out),
+            Edge::Lazy { src, j, depth, uses, how, copies } => self.do_lazy(src, j, depth, uses, how, copies, out),
+            Edge::ForgetHandle { op, idx, follow } => self.do_forget_handle(op, ix(idx), follow, out),
+            Edge::ForgetRange { splice, a, b, pat, stage, rn, follow } => self.do_forget_range(splice, ix(a), ix(b), pat, stage, rn as usize, follow, out),
+            Edge::WriteRead { w: wk, r, i } => self.do_write_read(wk, r, ix(i), out),
+            Edge::Swap { lhs, rhs, i } => self.do_swap(lhs, rhs, ix(i), out),
+            Edge::WrongPush(src, ty) => self.do_wrong_push_insert(src, None, ty, out),
+            Edge::WrongInsert(i, src, ty) => self.do_wrong_push_insert(src, Some(ix(i)), ty, out),
+            Edge::WrongSpliceItem { a, b, rn, bad_at, ty } => self.do_wrong_splice(ix(a), ix(b), rn as usize, bad_at as usize, ty, out),
+            Edge::WrongSwap(kind, ty) => self.do_wrong_swap(kind, ty, out),
+            Edge::WrongDowncast(kind, ty) => self.do_wrong_downcast(kind, ty, out),
+            Edge::TypeReports(_) => self.do_type_reports(out),
+            Edge::RawParts { variant, then } => self.do_raw_parts(variant, then, out),
+            Edge::Bytes { variant: 6, k } => self.do_placement(k as usize * 8, out),
+            Edge::Bytes { variant, k } => self.do_bytes(variant, k as usize, out),
+            Edge::Cap(api, call, n) => self.do_cap(api, call, ix(n), out),
+            Edge::CloneVec { then } => self.do_clone(then, out),
+            Edge::CloneEmpty { then } => self.do_clone_empty(then, out),
+            Edge::CloneEmptyIn { target, then } => self.do_clone_empty_in(target, then, out),
+            Edge::DrainAdapt { api, a, b, op } => self.do_range_adapt(api, ix(a), ix(b), op, None, out),
+            Edge::SpliceAdapt { api, a, b, op, rn } => self.do_range_adapt(api, ix(a), ix(b), op, Some(rn as usize), out),
+            Edge::IterAdapt { api, kind, op } => self.do_iter_adapt(api, kind, op, out),
+            Edge::IterProto { api, kind, pat, clone_at } => self.do_iter_proto(api, kind, pat, clone_at, out),
+            _ => { out.fail(Class::Machinery, "unimplemented-edge", format!("{e:?}")); }
+        }
+    }
+
+    /// after every step of a real history: contents, views, alignment, ownership - on the state the history really reached
+    pub fn mid_history_check(&mut self, out: &mut Out) {
+        if out.faulted { return; }
+        let sa = snap::<T, Tr, M>(&self.a);
+        if !snap_matches::<T>(&sa, &self.ma) { out.fail(Class::Vec, "seq-mismatch", format!("vector {} != model {}", fmt_snap(&sa), fmt_model(&self.ma))); }
+        if let Some(b) = &self.b { let sb = snap::<T, Tr, M::Aux>(b); if !snap_matches::<T>(&sb, &self.mb) { out.fail(Class::Vec, "other-seq-mismatch", format!("other vector {} != model {}", fmt_snap(&sb), fmt_model(&self.mb))); } }
+        if self.a.len() > self.a.capacity() { out.fail(Class::Cap, "len-gt-cap", format!("len {} > capacity {}", self.a.len(), self.a.capacity())); }
+        let base = self.a.downcast_ref::<T>().map(|t| t.as_ptr() as usize).unwrap_or(0);
+        if base % T::ALIGN != 0 { out.fail(Class::Mem, "storage-misaligned", format!("storage pointer {base:#x} is not aligned to {} (len {}, cap {})", T::ALIGN, self.a.len(), self.a.capacity())); }
+        else { let bts = self.a.as_bytes(); if bts.as_ptr() as usize != base || bts.len() != self.a.len() * T::SIZE { out.fail(Class::Vec, "views-incoherent", "as_bytes does not cover the typed slice".into()); } }
+        self.visible_check(out);
+        track::with_ts(|ts| { ts.scan(); for e in ts.errs.drain(..) { out.fails.push(Fail { class: Class::Mem, kind: if e.contains("stale") { "stale-write" } else { "oob-write" }, detail: e }); } });
+        galloc::flush();
+    }
+
     /// After a fault (C06): the vectors must stay fully usable. Re-seed the model from what is observed and run a
     /// follow-up battery restricted to the trusted kernel (typed push / insert(0) / pop / remove(0), clear).
     pub fn battery(&mut self, out: &mut Out) {
@@ -743,43 +822,7 @@ impl<T: Elem + SatisfyTraits<Tr>, M: MX, Tr: TrX + ?Sized> Runner for Cfg<T, M, 
         galloc::with_as(|st| st.clear_log());
         elem::with_reg(|r| { r.user_calls = 0; r.fault_at = fault_at; r.fault_fired = false; });
         let pre_len = w.ma.len();
-        match *e {
-            Edge::Push(api, src) => w.do_push_insert(api, src, None, &mut out),
-            Edge::Insert(api, i, src) => w.do_push_insert(api, src, Some(ix(i)), &mut out),
-            Edge::Pop(api, sink) => w.do_remove_like(api, 0, 0, sink, &mut out),
-            Edge::Remove(api, i, sink) => w.do_remove_like(api, 1, ix(i), sink, &mut out),
-            Edge::SwapRemove(api, i, sink) => w.do_remove_like(api, 2, ix(i), sink, &mut out),
-            Edge::Clear(api) => w.do_clear(api, &mut out),
-            Edge::Get(api, k, i) => w.do_get(api, k, ix(i), &mut out),
-            Edge::IterAll(api, k) => w.do_iter_all(api, k, &mut out),
-            Edge::Drain { api, a, b, form, pat, sink } => w.do_drain(api, ix(a), ix(b), form, pat, sink, &mut out),
-            Edge::Splice { api, a, b, form, pat, sink, rn, rsrc, lie } => w.do_splice(api, ix(a), ix(b), form, pat, sink, rn as usize, rsrc, lie, &mut out),
-            Edge::DrainOverflow(api, o) => w.do_range_overflow(api, o, false, &mut out),
-            Edge::SpliceOverflow(api, o) => w.do_range_overflow(api, o, true, &mut out),
-            Edge::Lazy { src, j, depth, uses, how, copies } => w.do_lazy(src, j, depth, uses, how, copies, &mut out),
-            Edge::ForgetHandle { op, idx, follow } => w.do_forget_handle(op, ix(idx), follow, &mut out),
-            Edge::ForgetRange { splice, a, b, pat, stage, rn, follow } => w.do_forget_range(splice, ix(a), ix(b), pat, stage, rn as usize, follow, &mut out),
-            Edge::WriteRead { w: wk, r, i } => w.do_write_read(wk, r, ix(i), &mut out),
-            Edge::Swap { lhs, rhs, i } => w.do_swap(lhs, rhs, ix(i), &mut out),
-            Edge::WrongPush(src, ty) => w.do_wrong_push_insert(src, None, ty, &mut out),
-            Edge::WrongInsert(i, src, ty) => w.do_wrong_push_insert(src, Some(ix(i)), ty, &mut out),
-            Edge::WrongSpliceItem { a, b, rn, bad_at, ty } => w.do_wrong_splice(ix(a), ix(b), rn as usize, bad_at as usize, ty, &mut out),
-            Edge::WrongSwap(kind, ty) => w.do_wrong_swap(kind, ty, &mut out),
-            Edge::WrongDowncast(kind, ty) => w.do_wrong_downcast(kind, ty, &mut out),
-            Edge::TypeReports(_) => w.do_type_reports(&mut out),
-            Edge::RawParts { variant, then } => w.do_raw_parts(variant, then, &mut out),
-            Edge::Bytes { variant: 6, k } => w.do_placement(k as usize * 8, &mut out),
-            Edge::Bytes { variant, k } => w.do_bytes(variant, k as usize, &mut out),
-            Edge::Cap(api, call, n) => w.do_cap(api, call, ix(n), &mut out),
-            Edge::CloneVec { then } => w.do_clone(then, &mut out),
-            Edge::CloneEmpty { then } => w.do_clone_empty(then, &mut out),
-            Edge::CloneEmptyIn { target, then } => w.do_clone_empty_in(target, then, &mut out),
-            Edge::DrainAdapt { api, a, b, op } => w.do_range_adapt(api, ix(a), ix(b), op, None, &mut out),
-            Edge::SpliceAdapt { api, a, b, op, rn } => w.do_range_adapt(api, ix(a), ix(b), op, Some(rn as usize), &mut out),
-            Edge::IterAdapt { api, kind, op } => w.do_iter_adapt(api, kind, op, &mut out),
-            Edge::IterProto { api, kind, pat, clone_at } => w.do_iter_proto(api, kind, pat, clone_at, &mut out),
-            _ => { out.fail(Class::Machinery, "unimplemented-edge", format!("{e:?}")); }
-        }
+        w.apply(e, &mut out);
         elem::with_reg(|r| { r.fault_at = 0; out.user_calls = r.user_calls; if r.fault_fired { out.faulted = true; } });
         // (a panicking operation allocates its payload in std's panic machinery: not the vector's doing)
         if matches!(M::KIND, BK::Stack | BK::StackN) && !matches!(e, Edge::CloneEmptyIn { target: 0, .. } | Edge::IterProto { .. }) && !out.outcome.contains("panic") && out.fails.is_empty() && !out.faulted {
@@ -798,7 +841,7 @@ pub fn edge_needs_b(e: &Edge) -> bool {
         Edge::Pop(_, s) | Edge::Remove(_, _, s) | Edge::SwapRemove(_, _, s) => matches!(s, Sink::MutMoveB | Sink::PushB | Sink::InsertB0 | Sink::LazyB(_)),
         Edge::Drain { sink, .. } => matches!(sink, Sink::MutMoveB | Sink::PushB | Sink::InsertB0 | Sink::LazyB(_)),
         Edge::Splice { sink, rsrc, .. } => matches!(sink, Sink::MutMoveB | Sink::PushB | Sink::InsertB0 | Sink::LazyB(_)) || matches!(rsrc, RSrc::BDrain | RSrc::LzRefs),
-        Edge::Lazy { .. } | Edge::ForgetRange { .. } | Edge::WriteRead { .. } | Edge::Swap { .. } => true,
+        Edge::Lazy { .. } | Edge::ForgetRange { .. } | Edge::WriteRead { .. } | Edge::Swap { .. } | Edge::History { .. } => true,
         _ => false,
     }
 }
